@@ -35,6 +35,36 @@ Top(i) == st.stack[i]
 Has(n) == Len(st.stack) >= n
 SmallTop(i, bound) == Has(i) /\ SmallVal(Top(i)) < bound
 
+Push32Max == <<PUSH32>> \o [i \in 1..32 |-> 255]
+Push9(lowbyte) == <<PUSH1 + 8, 1, 0, 0, 0, 0, 0, 0, 0, lowbyte>>          \* 2^64 + lowbyte
+
+(* JUMPI whose condition is zero: the destination operand is irrelevant, whatever it is - beyond the    *)
+(* code, a byte that is not a JUMPDEST, a 0x5b inside push data, a value that does not fit in 64 bits  *)
+NotTaken ==
+  {<<PUSH0, PUSH1, 250, JUMPI>>,
+   <<PUSH0, PUSH0, JUMPI>>,
+   <<PUSH1, JUMPDEST, POP, PUSH0, PUSH1, Len(code) + 1, JUMPI>>,
+   <<PUSH0>> \o Push9(3) \o <<JUMPI>>,
+   <<PUSH0>> \o Push32Max \o <<JUMPI>>,
+   (* and the same destinations with a non-zero condition: an invalid jump ends the program *)
+   <<PUSH1, 1>> \o Push9(3) \o <<JUMPI>>,
+   <<PUSH1, JUMPDEST, POP, PUSH1, 7, PUSH1, Len(code) + 1, JUMPI>>}
+
+(* copy instructions into memory that already holds non-zero bytes, the source range lying beyond or   *)
+(* straddling the end of the source: the window must be filled with zeros.  (CODECOPY: only offsets    *)
+(* beyond any code this generator can produce, so that appended code cannot change the result.)        *)
+DirtyCopy ==
+  LET dirty == Push32Max \o <<PUSH0, MSTORE>> \o Push32Max \o <<PUSH1, 32, MSTORE>>
+      dl == Len(data)
+  IN {dirty \o <<PUSH1, 40, PUSH1 + 2, 1, 0, 0, PUSH1, 8, CODECOPY>>,
+      dirty \o <<PUSH1, 33>> \o Push9(0) \o <<PUSH1, 3, CODECOPY>>,
+      dirty \o <<PUSH1, 7>> \o Push32Max \o <<PUSH0, CODECOPY>>,
+      dirty \o <<PUSH1, 20, PUSH1, IF dl >= 3 THEN dl - 3 ELSE 0, PUSH1, 4, CALLDATACOPY>>,
+      dirty \o <<PUSH1, 32, PUSH1, dl, PUSH1, 1, CALLDATACOPY>>,
+      dirty \o <<PUSH1, 9>> \o Push9(1) \o <<PUSH1, 30, CALLDATACOPY>>,
+      dirty \o <<PUSH1, 40, PUSH1, 1, PUSH0, MCOPY>>,
+      dirty \o <<PUSH1, IF dl >= 5 THEN dl - 5 ELSE 0, CALLDATALOAD>>}
+
 Macros ==
   (IF Len(st.stack) < 8 THEN {PushOf(v) : v \in Vals} ELSE {}) \cup
   {<<op>> : op \in {o \in WordOps : Has(Pops(o)) /\ (o = OpEXP => Len(Top(2)) <= 1)}} \cup
@@ -50,7 +80,8 @@ Macros ==
   (IF Len(code) < 200
      THEN {<<PUSH1, Len(code) + 5, JUMP, PUSH1, JUMPDEST, JUMPDEST>>,                 \* jump over a fake JUMPDEST
            <<PUSH1, Len(code) + 3, JUMP, JUMPDEST>>} \cup
-          (IF Has(1) THEN {<<PUSH1, Len(code) + 6, JUMPI, PUSH1 + 1, JUMPDEST, JUMPDEST, JUMPDEST>>} ELSE {})
+          (IF Has(1) THEN {<<PUSH1, Len(code) + 6, JUMPI, PUSH1 + 1, JUMPDEST, JUMPDEST, JUMPDEST>>} ELSE {}) \cup
+          NotTaken \cup DirtyCopy
      ELSE {})
 
 GenInit == /\ code = <<>> /\ data \in GenDatas /\ st = InitState /\ status = "run" /\ jumped = FALSE /\ ret = <<>>
